@@ -5,6 +5,7 @@ from cv import flow, pred, rules
 from cv.rules import events_of
 
 TITLE = "Listing a version follows the stitching rule and is strictly ordered"
+TECHNIQUE = 'static analysis: state-machine extraction from the MIR of Stitch::next (transition relation, guards, termination measure, resume-point provenance)'
 EXPLANATION = (
     "Decided on the state machine of Stitch::next: (1) the transition relation extracted from the match on "
     "self.state is exactly {BeforeBand->InBand|AfterBand, InBand->AfterBand, AfterBand->Done|BeforeBand}, Done "
